@@ -112,3 +112,15 @@ pub fn threads() -> usize {
             std::thread::available_parallelism().map(|n| n.get()).unwrap_or(4)
         })
 }
+
+/// Runs an engine's main body; a panic that escapes every per-call guard is
+/// printed as `ENGINE-PANIC: <message with location>` and the process exits
+/// 101. The driver attributes it to the crate under test when the location is
+/// inside /repo/src (or an arch copy), to the harness otherwise.
+pub fn run_main(f: impl FnOnce()) {
+    install_quiet_panic_hook();
+    if std::panic::catch_unwind(std::panic::AssertUnwindSafe(f)).is_err() {
+        eprintln!("ENGINE-PANIC: {}", take_panic_msg());
+        std::process::exit(101);
+    }
+}
